@@ -98,6 +98,10 @@ pub enum Op {
     Partition { inst: usize },
     /// ... and comes back, started from its storage.
     Heal { inst: usize },
+    /// The link between the instances is cut while both keep running ...
+    NetCut,
+    /// ... and restored.
+    NetRestore,
     /// Explicit RRDP session reset.
     RrdpSessionReset { inst: usize },
     /// The publication server operator removes the CA's publisher.
@@ -129,7 +133,8 @@ impl Op {
             | Op::Restart { inst } | Op::RrdpSessionReset { inst }
             | Op::RemovePublisher { inst, .. } | Op::RestartRrdp { inst, .. }
             | Op::Partition { inst } => vec![*inst],
-            Op::Heal { .. } | Op::Advance { .. } | Op::Pump => vec![],
+            Op::Heal { .. } | Op::Advance { .. } | Op::Pump
+            | Op::NetCut | Op::NetRestore => vec![],
         }
     }
 
@@ -158,6 +163,8 @@ impl Op {
             Op::Restart { .. } => "restart",
             Op::Partition { .. } => "partition",
             Op::Heal { .. } => "heal",
+            Op::NetCut => "net_cut",
+            Op::NetRestore => "net_restore",
             Op::RrdpSessionReset { .. } => "rrdp_session_reset",
             Op::RemovePublisher { .. } => "remove_publisher",
             Op::RestartRrdp { .. } => "restart_rrdp",
@@ -362,6 +369,8 @@ pub struct GenCtx<'a> {
     pub retired: &'a std::collections::BTreeSet<String>,
     /// Instances that are down.
     pub down: &'a [usize],
+    /// The link between the instances is cut.
+    pub cut: bool,
 }
 
 pub fn generate(rng: &mut Rng, ctx: &GenCtx) -> Op {
@@ -382,8 +391,12 @@ pub fn generate(rng: &mut Rng, ctx: &GenCtx) -> Op {
     let mut pick = rng.below(total);
 
     if pick < cfg.w_partition {
-        return if ctx.down.contains(&1) {
+        return if ctx.cut {
+            Op::NetRestore
+        } else if ctx.down.contains(&1) {
             Op::Heal { inst: 1 }
+        } else if rng.chance(1, 2) {
+            Op::NetCut
         } else {
             Op::Partition { inst: 1 }
         }
@@ -392,6 +405,9 @@ pub fn generate(rng: &mut Rng, ctx: &GenCtx) -> Op {
     // While the second instance is away, heal it sooner rather than later.
     if cfg.w_partition > 0 && ctx.down.contains(&1) && rng.chance(1, 4) {
         return Op::Heal { inst: 1 }
+    }
+    if cfg.w_partition > 0 && ctx.cut && rng.chance(1, 6) {
+        return Op::NetRestore
     }
 
     if pick < cfg.w_status {
